@@ -26,6 +26,7 @@ def outcomeName : Remove.Outcome → String
   | .failed .tableError => "TableError"
   | .failed .isSetup => "IsSetup"
   | .failed .noPermission => "NoPermission"
+  | .failed .tagNotFound => "NoSuchTag"
 
 def pairJson (p : Str × Str) : Json := Json.arr #[ofStr p.1, ofStr p.2]
 
@@ -34,7 +35,7 @@ def stateToJson (s : State) : List (String × Json) :=
    ("tags", Json.arr (s.tags.map fun t => Json.arr #[ofStr t.1, ofStr t.2.1, ofStr t.2.2]).toArray),
    ("dirs", Json.arr (s.dirs.map pairJson).toArray)]
 
-/-- `{"m":"c14","graph":G,"default":name|null,"cases":[[name,version,recursive,check,force,[[n,v]..],readOnlyDb]..]}` →
+/-- `{"m":"c14","graph":G,"default":name|null,"cases":[[name,version,recursive,check,force,[[n,v]..],readOnlyDb,how]..]}` (how = "version" | "tag:T" | "untag:T") →
 for every case the outcome, the state afterwards and the products removed (each case starts from G). -/
 def handle : Handler := fun j => do
   let s ← stateOfJson (← j.getObjVal? "graph")
@@ -42,21 +43,30 @@ def handle : Handler := fun j => do
   let cases ← jarr j "cases"
   let needUses ← cases.anyM fun c => do
     match (← c.getArr?).toList with
-    | [_, _, _, chk, _, _, _] => chk.getBool?
-    | _ => throw "expected [name, version, recursive, check, force, set-up products, read-only database]"
+    | [_, _, _, chk, _, _, _, _] => chk.getBool?
+    | _ => throw "expected [name, version, recursive, check, force, set-up products, read-only database, how]"
   let uses : UsesOutcome := if needUses then usesInfo s.db s.db.fuel else .ok []
   let outs ← cases.mapM fun c => do
     match (← c.getArr?).toList with
-    | [n, v, r, chk, f, su, ro] =>
+    | [n, v, r, chk, f, su, ro, how] =>
+      let how ← how.getStr?
       let setup ← (← su.getArr?).toList.mapM fun x => do
         match (← x.getArr?).toList with
         | [a, b] => pure (Str.ofString (← a.getStr?), Str.ofString (← b.getStr?))
         | _ => throw "expected [name, version] in the set-up list"
-      let (o, s', rm) := removeWith { s with setup := setup, dbWritable := !(← ro.getBool?) } uses (Str.ofString (← n.getStr?)) (Str.ofString (← v.getStr?))
-        (← r.getBool?) (← chk.getBool?) (← f.getBool?) dflt
+      let s0 : State := { s with setup := setup, dbWritable := !(← ro.getBool?) }
+      let nm := Str.ofString (← n.getStr?)
+      let (o, s', rm) ←
+        if how == "version" then
+          pure (removeWith s0 uses nm (Str.ofString (← v.getStr?)) (← r.getBool?) (← chk.getBool?) (← f.getBool?) dflt)
+        else if how.startsWith "tag:" then
+          pure (removeByTag s0 uses nm (Str.ofString (how.drop 4).toString) (← r.getBool?) (← chk.getBool?) (← f.getBool?) dflt)
+        else if how.startsWith "untag:" then
+          pure (Remove.Outcome.ok, untag s0 (Str.ofString (how.drop 6).toString), ([] : List Deps.Prod))
+        else throw s!"unknown form {how}"
       pure (Json.mkObj ([("out", Json.str (outcomeName o)),
         ("removed", Json.arr (rm.map fun p => Json.arr #[ofStr p.name, ofStrOpt p.ver]).toArray)] ++ stateToJson s'))
-    | _ => throw "expected [name, version, recursive, check, force, set-up products, read-only database]"
+    | _ => throw "expected [name, version, recursive, check, force, set-up products, read-only database, how]"
   pure (Json.mkObj [("answers", Json.arr outs.toArray)])
 
 end EupsModel.Drv.C14
